@@ -11,7 +11,7 @@ func VerifC02_q_stickyAcrossRestart() {
 }
 
 
-// BOUND: topology 1 (4 IPs, two node subnets); a deployment with replicas 1 or 2 whose pods use a reserving policy (immutable, never) or a named pool p1 without size; all replicas bound; then a surge rolling update of one pod: the replacement is created and filtered before or after the old pod is deleted and its event handled (either order, a rejected filter is retried after the event); the replacement must be bound with an IP the deployment already held and the deployment never holds more IPs than replicas
+// BOUND: topology 1 (4 IPs, two node subnets); a deployment with replicas 1 or 2 whose pods use a reserving policy (immutable, never) or a named pool p1 without size; all replicas bound; then a surge rolling update of one pod: the replacement is created and filtered before or after the old pod is deleted and its event handled (either order, a rejected filter is retried after the event; one API-server / store call of the replacement's last Filter may fail cleanly at a symbolic position 0..4 and a Filter that answered with an error is retried); the replacement must be bound with an IP the deployment already held and the deployment never holds more IPs than replicas
 func VerifC02_q_rollingUpdate() {
 	w := vpNewWorld(1, false)
 	if err := w.configure(); err != nil {
@@ -78,7 +78,15 @@ func VerifC02_q_rollingUpdate() {
 		endOld()
 	}
 	if len(approved) == 0 {
-		approved, _ = w.filter(repl, "n1", "n2", "n3")
+		// one API-server / store call of this Filter may fail cleanly (symbolic position, 0 = none); the scheduler
+		// retries a Filter that answered with an error
+		w.calls, w.faultAt = 0, nondetInt(0, 4)
+		var ferr error
+		approved, ferr = w.filter(repl, "n1", "n2", "n3")
+		w.faultAt = 0
+		if ferr != nil {
+			approved, _ = w.filter(repl, "n1", "n2", "n3")
+		}
 	}
 	verifAssert("C02/app-ip-count", count() <= replicas, "the deployment holds more IPs than replicas during a rolling update")
 	if len(approved) == 0 {
